@@ -108,15 +108,23 @@ def model_ff(ff):
 
 def model_graph(graph):
     return dict(nodes=[[json.dumps(k), resid, resname, from_itp] for k, resid, resname, from_itp in graph["nodes"]],
-                edges=[[json.dumps(u), json.dumps(v)] for u, v in graph["edges"]])
+                edges=[[json.dumps(e[0]), json.dumps(e[1])] for e in graph["edges"]])
 
 
 # ------------------------------------------------------------------------------------------------ real code
 
 def write_files(files, tmpdir):
+    """one file per entry; files of the same extension get the SAME base name in different directories
+    (as two libraries ship their `links.ff`), a single file of an extension lies in `tmpdir` itself"""
     paths = []
+    exts = [ext for ext, _ in files]
     for idx, (ext, chunks) in enumerate(files):
-        path = pathlib.Path(tmpdir) / ("in%d.%s" % (idx, ext))
+        if exts.count(ext) > 1:
+            folder = pathlib.Path(tmpdir) / ("in_dir%d" % idx)
+            folder.mkdir(exist_ok=True)
+            path = folder / ("input.%s" % ext)
+        else:
+            path = pathlib.Path(tmpdir) / ("in%d.%s" % (idx, ext))
         path.write_text(gen.file_text(chunks))
         paths.append(path)
     return paths
@@ -166,9 +174,43 @@ def build_meta(ff, graph, name="verif"):
         if from_itp:
             attrs["from_itp"] = from_itp
         g.add_node(key, **attrs)
-    for u, v in graph["edges"]:
-        g.add_edge(u, v)
+    for edge in graph["edges"]:
+        if len(edge) > 2:
+            g.add_edge(edge[0], edge[1], linktype=edge[2])
+        else:
+            g.add_edge(edge[0], edge[1])
     return MetaMolecule(g, force_field=ff, mol_name=name)
+
+
+def link_requirements(meta_molecule, link, link_to_resid):
+    import vermouth.molecule
+    # (the program's `link_to_resid` maps link atoms to residue-graph NODE KEYS)
+    link_to_resid = {node: meta_molecule.nodes[key]["resid"] for node, key in link_to_resid.items()}
+    resnames = []
+    for node, resid in link_to_resid.items():
+        want = link.nodes[node].get("resname")
+        if want is None:
+            continue
+        if isinstance(want, vermouth.molecule.LinkPredicate):
+            allowed = list(want.value) if not isinstance(want.value, str) else [want.value]
+        else:
+            allowed = [want]
+        resnames.append([int(resid), [str(a) for a in allowed]])
+    edges = []
+    for a, b, data in link.edges(data=True):
+        ra, rb = link_to_resid.get(a), link_to_resid.get(b)
+        if ra is None or rb is None or ra == rb:
+            continue
+        edges.append([int(ra), int(rb), data.get("linktype")])
+    return dict(molmeta=[[str(k), tok(v)] for k, v in dict(link.molecule_meta).items()], resnames=resnames, edges=edges)
+
+
+def graph_facts(meta_molecule):
+    """residue-level facts the applicability of a link is judged on"""
+    resid = {k: int(meta_molecule.nodes[k]["resid"]) for k in meta_molecule.nodes}
+    return dict(molmeta=[[str(k), tok(v)] for k, v in dict(meta_molecule.molecule.meta).items()],
+                resnames=[[resid[k], meta_molecule.nodes[k]["resname"]] for k in meta_molecule.nodes],
+                edges=[[resid[u], resid[v], data.get("linktype")] for u, v, data in meta_molecule.edges(data=True)])
 
 
 class LinkRecorder:
@@ -176,6 +218,7 @@ class LinkRecorder:
 
     def __init__(self):
         self.ops = []
+        self.uses = []
         self.pre_excl = None
 
     @contextlib.contextmanager
@@ -191,6 +234,7 @@ class LinkRecorder:
             attrs_before = {n: dict(molecule.nodes[n]) for n in molecule.nodes}
             removed_before = len(this.nodes_to_remove)
             applied = False
+            start = len(recorder.ops)
             try:
                 result = orig_apply(this, meta_molecule, link, link_to_resid)
                 applied = True
@@ -212,6 +256,12 @@ class LinkRecorder:
                             ixn = value[0]
                             ixn = [sect, [int(a) for a in ixn.atoms], [tok(p) for p in ixn.parameters], canon_meta(ixn.meta)]
                             recorder.ops.append(dict(op="insert", ixn=ixn) if applied else dict(op="leak", node=-1, attrs=[], ixn=ixn))
+                # what this link REQUIRES of the place it is applied to (read off the link definition, not off the
+                # matcher): molecule meta data, residue names, residue-graph edges and their linktype
+                use = len(recorder.uses)
+                recorder.uses.append(link_requirements(meta_molecule, link, link_to_resid))
+                for op in recorder.ops[start:]:
+                    op["use"] = use
 
         def excl_wrapped(molecule):
             recorder.pre_excl = dump_mol(molecule)
@@ -253,10 +303,12 @@ def run_stages(files, graph, mods):
             out["map"] = dump_mol(meta.molecule)
             out["graphs"] = dump_graphs(meta)
             out["stage"] = "links"
+            out["facts"] = graph_facts(meta)
             recorder = LinkRecorder()
             with recorder.installed():
                 ApplyLinks().run_molecule(meta)
             out["linkops"] = recorder.ops
+            out["linkuses"] = recorder.uses
             out["links"] = recorder.pre_excl
             out["links_excl"] = dump_mol(meta.molecule)
             out["stage"] = "mods"
@@ -330,8 +382,9 @@ def run_gen_params_in_dir(tmpdir, files, graph, mods, name="verif"):
     """`gen_params` on files written to FIXED paths inside `tmpdir` (in<i>.<ext>, graph.json, out.itp): a second
     call with other content re-uses the same paths, as an edit-and-rerun script does"""
     from polyply.src.gen_itp import gen_params
-    for old in pathlib.Path(tmpdir).glob("in*.*"):
-        old.unlink()
+    for old in list(pathlib.Path(tmpdir).glob("in_dir*/*")) + list(pathlib.Path(tmpdir).glob("in*.*")):
+        if old.is_file():
+            old.unlink()
     paths = write_files(files, tmpdir)
     seq = pathlib.Path(tmpdir) / "graph.json"
     seq.write_text(json.dumps(gen.to_json_graph(graph)))
